@@ -75,6 +75,27 @@ CHECKS = {
         note="'Eventually' and whole-program memory bounds are not decided (liveness); same exclusions as C04.",
         technique="contract-based deductive verification: verbatim extraction + Kani contract harnesses (CBMC), bounded container sizes",
     ),
+    "C09": dict(
+        category="other",
+        text="Frame-reuse contracts on the interpreter's tail-call handlers (new_handle_tail_call_closure, tco_jump_handler, rest-argument "
+             "adjustment): the frame count is unchanged, the operand stack becomes exactly stack[..sp] ++ arguments, everything below the frame is "
+             "untouched, ip restarts at 0 in the callee's code; handle_function_call_closure pushes exactly one frame; check_stack_overflow returns "
+             "an error value iff depth >= STACK_LIMIT for EVERY depth (complete proof). Stack-shuffle obligations are bounded (5 values, arity <= 2).",
+        design_ref="DESIGN.md section 3, C09",
+        note="Which call sites get tail opcodes (compiler), the native tier's tail-call paths, apply/continuation tail calls and heap growth are not covered; "
+             "constant space over many iterations follows by induction from the per-call contract (paper step).",
+        technique="contract-based deductive verification: verbatim extraction of VmCore methods + Kani contract harnesses (CBMC)",
+    ),
+    "C01": dict(
+        category="other",
+        text="Only local steps whose contract follows directly from the property are decided: operand encoding round trip (u24, all 2^24 values, "
+             "complete), call set-up (the callee's frame holds exactly the arguments written at the call site; surplus arguments become the rest "
+             "list in order; arity mismatch is an error), local variable read / move-on-last-use / assignment touch exactly the addressed slot, and "
+             "the SUBIMMEDIATE arm of the interpreter loop computes the exact difference. Level `other`: this is a small part of a whole-pipeline property.",
+        design_ref="DESIGN.md section 3, C01",
+        note="The 15 AST passes, analysis, code generation, peephole rewrites, the rest of the 1400-line interpreter match and the stdlib are NOT covered.",
+        technique="contract-based deductive verification: verbatim extraction of VmCore methods / a match arm + Kani contract harnesses (CBMC)",
+    ),
 }
 
 NOT_APPLICABLE = {
